@@ -113,3 +113,23 @@ package main
 //@   ensures [unchanged-on-error] err != nil && $main != nil && before(fileState, $main.Name) == 0 ==> fileState[$main.Name] == 0
 //@   ensures [formatted-on-success] err == nil && $main != nil && r.config.Format.Overwrite && before(fileState, $main.Name) == 0 ==> fileState[$main.Name] == 2
 //@   ensures [untouched-without-write] err == nil && $main != nil && !r.config.Format.Overwrite && before(fileState, $main.Name) == 0 ==> fileState[$main.Name] == 0
+
+// ---- C10: the test command's verdict ----------------------------------------------------------------------
+// failing(c): the case is reported as failed (not skipped, carries an error)
+//@ pred failing(c *tester.TestCase) = c != nil && !c.Skip && c.Error != nil
+//@ pred someFailed(f *tester.TestFactory) = exists j int :: 0 <= j && j < len(f.Results) && (exists k int :: 0 <= k && k < len(f.Results[j].Cases) && failing(f.Results[j].Cases[k]))
+
+//@ func (*Runner).Test [C10]
+//@   requires r != nil && r.config != nil && r.config.Testing != nil
+//@   ensures [factory-or-error] err == nil ==> result != nil && result.Statistics != nil
+//@   ensures [failures-counted] err == nil ==> (forall j int :: 0 <= j && j < len(result.Results) ==> result.Results[j] != nil && counted(result.Results[j].Cases, result.Statistics))
+//@   assume-ensures err == nil ==> (result.Statistics.g_failed ==> result.Statistics.Fails > 0)
+
+//@ func runTest [C10]
+//@   requires runner != nil && runner.config != nil && runner.config.Testing != nil
+//@   ensures [exit-nonzero-when-a-test-failed] $factory != nil && someFailed($factory) ==> result != nil
+//@   ensures [exit-reports-the-counter] $factory != nil && $factory.Statistics != nil && $factory.Statistics.Fails > 0 ==> result == ErrExit
+//@   ensures [run-error-exits-nonzero] $factory == nil ==> result == ErrExit
+//@   ensures [tally] result == nil ==> $factory != nil && (old(runner.config.Json) || $passedCount + $failedCount + $skippedCount == $totalCount)
+//@   loop 1 invariant passedCount + failedCount + skippedCount == totalCount
+//@   loop 2 invariant passedCount + failedCount + skippedCount == totalCount
